@@ -139,7 +139,7 @@ theorem delThrough_found (root : Val) (p : Pos) (c : Val) (r : Res) (t' : Val)
   rcases hname.inv with ⟨cls, kvs, k, rfl, rfl, hnik⟩ | ⟨cls, xs, n, i, rfl, rfl, hnii, hn⟩
   · rw [hnik]
     unfold delThrough
-    simp only [valOf_at, hpv]
+    simp only [isWrap_at, Bool.false_eq_true, if_false, valOf_at, hpv]
     by_cases hh : kvHas k kvs = true
     · have hsn := delAt_snoc pp root (.key k) (.dict cls kvs) (.dict cls (kvDel k kvs)) hpv (by simp [delChild, hh])
       rw [hsn] at hdel
@@ -154,7 +154,7 @@ theorem delThrough_found (root : Val) (p : Pos) (c : Val) (r : Res) (t' : Val)
     have hsn := delAt_snoc pp root (.idx n) (.list cls xs) (.list cls (xs.eraseIdx n)) hpv (by simp [delChild, hlt])
     rw [hsn] at hdel
     unfold delThrough
-    simp only [valOf_at, hpv, startsWith_bracket, endsWith_bracket, Bool.and_self, Bool.not_true,
+    simp only [isWrap_at, Bool.false_eq_true, if_false, valOf_at, hpv, startsWith_bracket, endsWith_bracket, Bool.and_self, Bool.not_true,
       Bool.false_eq_true, if_false, bracket_inner, n0eval_intStr, hn]
     rw [modRef_at root pp _ _ hpv]
     simp [hdel]
@@ -188,10 +188,13 @@ theorem deleteLoop_rest (fuel : Nat) (toks : List Str) (t : Val) (p : Pos) (c : 
       omega
     have hlen : (toks.take (k + 1)).length ≤ toks.length := by
       rw [List.length_take]; exact Nat.min_le_right _ _
-    obtain ⟨res, hres, _⟩ := find_spells t' true hsp2 hne fuel [] slash true rfl
+    obtain ⟨res, hres, hfres⟩ := find_spells t' true hsp2 hne fuel [] slash true rfl
       (Nat.le_trans (Nat.mul_le_mul_left 2 hlen) hf)
+    have hdp : delPlace fuel t' (toks.getD k []) res = .ok (some res) := by
+      obtain ⟨_, _, pp, _, _, _, _, hpar, _⟩ := hfres
+      exact delPlace_at _ _ _ _ _ hpar
     rw [deleteLoop, hres]
-    simp only [Bool.false_or, Bool.false_and, Bool.false_eq_true, if_false]
+    simp only [hdp, Bool.false_or, Bool.false_and, Bool.false_eq_true, if_false]
     exact ih (by omega)
 
 /-- **delete, not recursive**: the addressed node is removed and nothing else happens -/
@@ -204,10 +207,13 @@ theorem deleteLoop_spelled (fuel : Nat) (toks : List Str) (t : Val) (p : Pos) (c
     omega⟩
   obtain ⟨r, hr, hfound⟩ := find_spells t true hs hne fuel [] slash true rfl hf
   have hdt := delThrough_found t p c r t' hfound hdel
+  have hdp : ∀ tok, delPlace fuel t tok r = .ok (some r) := by
+    obtain ⟨_, _, pp, _, _, _, _, hpar, _⟩ := hfound
+    exact fun tok => delPlace_at _ _ tok _ _ hpar
   rw [hn, deleteLoop]
   have htake : toks.take (n + 1) = toks := by rw [← hn]; exact List.take_length
   rw [htake, hr]
-  simp only [Bool.true_or, if_true, hdt]
+  simp only [Bool.true_or, if_true, hdp, hdt]
   -- the parent position and the value written there
   obtain ⟨_, _, pp, sg, pv, ni, hp, _, hpv, _, hname⟩ := hfound
   simp only [List.nil_append] at hpv
